@@ -412,6 +412,13 @@ func gateRestoreSuite(n int, timeout int) *Suite {
 				a.Ready(s)
 				b.Ready(s)
 			}
+			// before any timer runs: the same signals must have taken both gates equally far (a rebuilt gate that
+			// only fires at its timeout although everybody has signalled does not behave like the original)
+			drain(false)
+			if firedBefore == 0 && len(recA) != len(recB) {
+				viol, detail = "restore-fires-at-another-moment", fmt.Sprintf("after the signals %v (gate saved and rebuilt after the first %d) and before any timeout the original has fired %d times, the rebuilt gate %d times: A=%v B=%v", seq, split, len(recA), len(recB), recA, recB)
+				return
+			}
 			drain(true)
 			outcome = fmt.Sprintf("seq=%v split=%d A=%v B=%v", seq, split, recA, recB)
 			// the original fires once in total; the restored gate must fire iff the original had not fired before the snapshot
